@@ -51,15 +51,40 @@ ctx_stats = {}
 
 def gen_fn(rng):
     for _ in range(20):
-        base = gen.gen_system(rng, phases=0.4, p_rt=0.6, max_nodes=14, p_neg_src_rs=0.0, n_sources=rng.choice([1, 1, 2, 3]))
+        # no build detours here: limits sit exactly on cell values, so the float summation order of the children must be the plain one
+        base = gen.gen_system(rng, phases=0.4, p_rt=0.6, max_nodes=14, p_neg_src_rs=0.0, n_sources=rng.choice([1, 1, 2, 3]), p_detour=0.0)
         sys_, df, err = solved.solve_case(base, {"vtol": 1e-10, "itol": 1e-10})
         if err is None:
             return plant(rng, base, sysdesc.observe(df))
     return base
 
 
+def boundary_ulp(ctx, desc, obs, m):
+    """a Warnings disagreement between model and implementation is not a disagreement when every disputed token's
+    quantity sits on its limit to within 1e-9: table interpolation and child-current sums are not bit-reproducible"""
+    if m["col"] != "warn":
+        return False
+    row = [r for p in obs["phases"] if p["phase"] == m["phase"] for r in p["rows"] if r["name"] == m["row"]]
+    if not row:
+        return False
+    c = [c for c in desc["comps"] if c["name"] == m["row"]][0]
+    q = oracles.row_quantities(row[0])
+    lim = c["args"].get("limits") or {}
+    for tok in set(m["impl"].split()) ^ set(m["model"].split()):
+        if tok not in q:
+            return False
+        lo, hi = lim.get(tok, oracles.DEFAULT_LIM[tok])
+        x = q[tok] if tok == "tp" else abs(q[tok])
+        a, b = (lo, hi) if tok == "tp" else (abs(lo), abs(hi))
+        if min(abs(x - a), abs(x - b)) > 1e-9 * max(abs(x), 1e-30):
+            return False
+    ctx.stats["boundary_last_bit_ambiguous"] += 1
+    return True
+
+
 tablecheck.make(globals(), cols=["pwr", "loss", "tr", "tp"], textcols=["warn", "typ"], oracle=oracles.o_c09, gen_fn=gen_fn,
-                counts=(150, 4000), nontrivial=lambda desc, obs: any(c["args"].get("limits") for c in desc["comps"]), sweeps=False)
+                counts=(150, 4000), nontrivial=lambda desc, obs: any(c["args"].get("limits") for c in desc["comps"]), sweeps=False,
+                mismatch_filter=boundary_ulp)
 
 _run = run  # noqa: F821
 
